@@ -324,6 +324,11 @@ def jobs_for(tier):
                         jobs.append((kind, n, ("SUCCESS",) * n, (), (), None, (nerr, err, when), False))
                         if thorough or n == 2:
                             jobs.append((kind, n, ("FAILURE:ERROR_IN_ORDER",) + ("SUCCESS",) * (n - 1), (), (0,) if n > 1 else (), None, (nerr, err, when), False))
+    # replace: the cancel half and the place half of an instruction report answered independently
+    for n in (1, 2):
+        for per in itertools.product(("SPLIT:TIMEOUT:FAILURE", "SPLIT:SUCCESS:FAILURE", "SPLIT:SUCCESS:TIMEOUT", "SPLIT:FAILURE:TIMEOUT", "SUCCESS"), repeat=n):
+            if any(p.startswith("SPLIT") for p in per):
+                jobs.append(("replace", n, per, (), (), None, None, False))
         # async placement
     for n in (1, 2):
         for per in itertools.product(("SUCCESS", "FAILURE:ERROR_IN_ORDER", "TIMEOUT"), repeat=n):
